@@ -573,7 +573,7 @@ func checkSeparatorPerGap(p *core.Program, r *core.Report, g *wlGen, rule string
 		if fn.Parent() == nil || fn.Signature.Params().Len() != 0 || fn.Signature.Results().Len() != 2 {
 			continue
 		}
-		r.Check(len(eff.Summary[fn]) == 0, rule, core.FuncName(fn), "separator closure keeps no state between calls", p.Pos(fn.Pos()), "")
+		r.Check(len(eff.Writes(fn)) == 0, rule, core.FuncName(fn), "separator closure keeps no state between calls", p.Pos(fn.Pos()), "")
 	}
 }
 
